@@ -281,7 +281,7 @@ func runCheck(o *checkOpts) *CheckReport {
 					Workers:       optInt(hd.Opts, o.tier, "workers", 8),
 					BranchTO:      time.Duration(optInt(hd.Opts, o.tier, "branchto", 10)) * time.Second,
 					AssertTO:      time.Duration(optInt(hd.Opts, o.tier, "assertto", 60)) * time.Second,
-					MaxWall:       time.Duration(optInt(hd.Opts, o.tier, "wall", map[string]int{"quick": 240, "thorough": 1500}[o.tier])) * time.Second,
+					MaxWall:       time.Duration(optInt(hd.Opts, o.tier, "wall", map[string]int{"quick": 600, "thorough": 1500}[o.tier])) * time.Second,
 					CrossEach:     optInt(hd.Opts, o.tier, "cross", map[string]int{"quick": 0, "thorough": 0}[o.tier]),
 					Sched:         optInt(hd.Opts, o.tier, "sched", 0) != 0,
 					Race:          optInt(hd.Opts, o.tier, "race", 0) != 0,
